@@ -310,6 +310,7 @@ From AV Require Import LatEngine.LatSyntax LatEngine.LatEval LatEngine.LatPlan L
 From AV Require Import LatEngine.LatMain LatEngine.LatVocab LatEngine.LatExample.
 From AV Require Import LatEngine.LatAggEval LatEngine.LatAggTrans LatEngine.LatAggInv LatEngine.LatAggSem LatEngine.LatAggMain.
 From AV Require Import LatEngine.LatAggExample.
+From AV Require LatEngine.LatIndexedProps.
 From AV Require Import LatEngine.LatIndexedEval LatEngine.LatIndexedStore LatEngine.LatIndexedMain LatEngine.LatIndexedFinding.
 Import ListNotations.
 
@@ -374,18 +375,7 @@ Example c04_lattice_indexed_example : exists xst,
   /\ l_rows (xl_s xst) 3%nat = [[2; 1]; [0; 3]; [1; 2]]%Z
   /\ strat_lat_model lv_interp std_aint sp_islat sp_lle (plan_strata ag_prog ag_plan) ag_input (l_rows (xl_s xst))
   /\ keys_ok sp_islat (l_rows (xl_s xst)).
-Proof.
-  assert (Hok : xplan_ok sp_islat ag_arities ag_decls ag_plan = true) by (vm_compute; reflexivity).
-  destruct (xrun_plan lv_interp std_aint sp_islat sp_jm lv_shuffle lv_shuffle lv_swap (decls_of ag_decls) 40 ag_plan ag_input) as [xst|] eqn:Erun;
-    [|vm_compute in Erun; discriminate].
-  exists xst. split; [exact Hok|]. split; [reflexivity|].
-  assert (H3 : l_rows (xl_s xst) 3%nat = [[2; 1]; [0; 3]; [1; 2]]%Z) by (vm_compute in Erun; injection Erun as <-; reflexivity).
-  split; [exact H3|]. destruct ag_checks as [Hval [Halat Hbelow]].
-  destruct (lat_indexed_agg_stratified_model Z lv_interp sp_eq std_aint ag_agg_perm sp_islat sp_lle sp_jm sp_laws lv_shuffle sp_shuffle_ok
-              lv_shuffle ag_ashuffle_ok lv_swap ag_arities ag_arities_functional ag_prog 5%nat ag_monotone ag_plan Hval Halat Hbelow
-              ag_decls Hok ag_dom 40%nat ag_input xst ag_input_ok Erun) as [_ [_ [Hmodel [Hkeys _]]]].
-  split; [exact Hmodel | exact Hkeys].
-Qed.
+Proof. exact LatIndexedProps.c04_lattice_indexed_example. Qed.
 
 Print Assumptions c04_lattice_indexed_refines.
 Print Assumptions c04_lattice_indexed_stratified_model.
